@@ -165,7 +165,10 @@ def _config(draw, tier, eq):
   g = draw(_grids(sz['max_m']))
   cfg = {'eq': eq, 'grid': g, 'dt': draw(st.sampled_from([0.01, 0.03, 0.1, 0.005])),
          'lf_alpha': draw(st.sampled_from([0.5, 0.5, 0.75, 1.0])),
-         'oro_amp': draw(st.sampled_from([0.0, 1.0])), 'oro_seed': draw(st.integers(0, 99))}
+         'oro_amp': draw(st.sampled_from([0.0, 1.0])), 'oro_seed': draw(st.integers(0, 99)),
+         # the orography is configuration, not state: callers pass `grid.to_modal(nodal_mountain)` without clipping,
+         # and the invariants must hold for it too (the tendencies are clipped after the orography term is added)
+         'oro_unclipped': draw(st.booleans())}
   if eq == 'sw':
     n = draw(st.integers(1, sz['max_layers']))
     cfg['layers'] = n
@@ -261,7 +264,8 @@ class _Ctx:
     self.modal_shape = tuple(grid.modal_shape)
     self.dt = float(cfg['dt'])
     rng = np.random.default_rng([int(cfg['oro_seed']), 17])
-    oro = rng.standard_normal(self.modal_shape) * self.allowed / (1.0 + l) ** 2
+    oro_mask = np.asarray(grid.mask) if cfg.get('oro_unclipped') else self.allowed
+    oro = rng.standard_normal(self.modal_shape) * oro_mask / (1.0 + l) ** 2
     if self.eq_kind == 'sw':
       n = int(cfg['layers'])
       self.coords = cs.CoordinateSystem(grid, lc.LayerCoordinates(n))
@@ -560,6 +564,8 @@ def run_history(case):
   inv = _Invariants(ctx, x0)
   labels = {f"eq={cfg['eq']}", f"impl={cfg['grid']['impl']}", f"integrator={integ}"}
   labels.update(gens.grid_labels(cfg['grid'])[0:1])
+  if cfg.get('oro_amp') and cfg.get('oro_unclipped') and not cfg.get('no_orography'):
+    labels.add('orography_unclipped')
   if cfg['grid'].get('impl') == 'fast':
     labels.add('padded=yes' if (cfg['grid'].get('bsm') or 1) > 1 else 'padded=no')
   if cfg['eq'] != 'sw':
